@@ -1,0 +1,23 @@
+// Copyright 2016 The Cockroach Authors.
+//
+// Licensed under the Apache License, Version 2.0 (the "License");
+// you may not use this file except in compliance with the License.
+// You may obtain a copy of the License at
+//
+//     http://www.apache.org/licenses/LICENSE-2.0
+//
+// Unless required by applicable law or agreed to in writing, software
+// distributed under the License is distributed on an "AS IS" BASIS,
+// WITHOUT WARRANTIES OR CONDITIONS OF ANY KIND, either express or
+// implied. See the License for the specific language governing
+// permissions and limitations under the License.
+
+//go:build !verif
+// +build !verif
+
+package apd
+
+// verifLoopTick is a no-op unless the package is built with the verif tag,
+// in which case it counts iterations of data-dependent loops for external
+// runtime monitors (see verif_hooks.go).
+func verifLoopTick(site string) {}
